@@ -144,7 +144,11 @@ def evaluate_supported(spec, wd, options=None, wild=None):
     obj = built.obj
     if not is_expr and obj.empty():
         return Outcome("zero-form", case_id=h, classes=classes)
-    st_ = "float64"
+    # a quarter of the real-grammar inputs are compiled for a complex scalar type (comparisons, min/max and sign then have to be
+    # rejected by a Python exception unless their operands are provably real)
+    st_ = "complex128" if (not wild and int(spec.get("data_seed", 0)) % 4 == 0) else "float64"
+    if st_ != "float64":
+        classes = classes + ["scalar:" + st_]
     try:
         mod = kernels.compile_module([obj], dict(options or {}, scalar_type=st_), workdir=wd, name="m" + h)
     except kernels.Rejected as e:
